@@ -334,7 +334,34 @@ class Ctx:
             self._keep.append(constraints)
         return rs, (vals if want_model else None)
 
-    def sample_model(self, constraints, tries=None, per_try_ms=1500):
+    FLOAT_EXACT_UNITS = [(1, 0), (0, 1), (Fraction(3, 5), Fraction(4, 5)), (Fraction(4, 5), Fraction(3, 5)),
+                         (Fraction(7, 25), Fraction(24, 25)), (Fraction(24, 25), Fraction(7, 25)),
+                         (Fraction(44, 125), Fraction(117, 125)), (Fraction(117, 125), Fraction(44, 125))]
+
+    def float_exact_model(self, constraints, timeout_ms=10000):
+        """model of `constraints` in which every hinted unit vector is one of a few vectors whose norms and mutual dot
+        products are exact in IEEE doubles (finite-domain search done by the solver)."""
+        names = set()
+        for c in constraints:
+            names |= vars_of(c)
+        fam = []
+        for x, y in self.FLOAT_EXACT_UNITS:
+            for sx in (1, -1):
+                for sy in (1, -1):
+                    v = (Fraction(x) * sx, Fraction(y) * sy)
+                    if v not in fam:
+                        fam.append(v)
+        extra = []
+        for a, b in self.hints.get("unit", []):
+            if a in names or b in names:
+                A, B = z3.Real(a), z3.Real(b)
+                extra.append(z3.Or(*[z3.And(A == z3.RealVal(str(x)), B == z3.RealVal(str(y))) for x, y in fam]))
+        if not extra:
+            return None
+        r, vals = self._z3_check(list(constraints) + extra, timeout_ms, True)
+        return vals if r == "sat" else None
+
+    def sample_model(self, constraints, tries=None, per_try_ms=1500, float_exact=False):
         """Sat-side helper for nonlinear systems nlsat cannot model: give the harness inputs concrete rational values
         (unit-vector pairs from the rational parametrisation of the circle), solve the rest.  Any model found is a
         genuine model of `constraints` (checked by z3 on the substituted system)."""
@@ -358,7 +385,12 @@ class Ctx:
             assign = {}
             guided = bool(hv) and t < max(2, (2 * tries) // 3)
             for a, b in unit_pairs:
-                if guided and a in hv and b in hv:
+                if float_exact:
+                    # unit vectors whose squared norm and mutual dot products are exact in IEEE doubles, so that exact
+                    # coincidences (antiparallel, zero component) survive the concrete replay
+                    x, y = rng.choice(self.FLOAT_EXACT_UNITS)
+                    x, y = Fraction(x) * rng.choice((1, -1)), Fraction(y) * rng.choice((1, -1))
+                elif guided and a in hv and b in hv:
                     # rational point on the unit circle close to the hinted direction (exact unit vector)
                     hx, hy = hv[a], hv[b]
                     ang = math.atan2(hy, hx) + (0.0 if t == 0 else rng.uniform(-0.25, 0.25) * (1 + t // 4))
@@ -711,6 +743,8 @@ class SymReal:
 
     # comparisons -------------------------------------------------------------------
     def _cmp(s, o, f):
+        if isinstance(o, (float, np.floating)) and (o == math.inf or o == -math.inf):
+            return bool(f(0.0, float(o)))       # every real compares with +-inf like 0 does
         try:
             b = lift(o)
         except TypeError:
